@@ -130,6 +130,11 @@ def _input(draw, used_eff):
     ncls = draw(st.sampled_from(["any", "any", "any", "any", "multiple",
                                  "one", "plus1", "minus1", "lt_used"]))
     k = draw(st.integers(1, 4))
+    if used_eff <= 32 and draw(st.integers(0, 9)) == 0:
+        # a long burst: 65 .. 257 OFDM symbols (where an implementation is
+        # tempted to work block by block)
+        k = draw(st.sampled_from([65, 70, 100, 129, 150, 257]))
+        ncls = draw(st.sampled_from(["multiple", "minus1", "plus1"]))
     if ncls == "multiple":
         n = k * used_eff
     elif ncls == "one":
